@@ -4,8 +4,8 @@ from props import codegen_common as cg
 from props import c01
 
 LEVEL = 'proof'
-MODULES = ['Pysmi.Props.C03', 'Pysmi.Props.C03Time']
-LAKE_TARGETS = ['Pysmi.Props.C03', 'Pysmi.Props.C03Time']
+MODULES = ['Pysmi.Props.C03', 'Pysmi.Props.C03Time', 'Pysmi.Props.C03Records']
+LAKE_TARGETS = ['Pysmi.Props.C03', 'Pysmi.Props.C03Time', 'Pysmi.Props.C03Records']
 THEOREMS = [
     'Pysmi.Symtab.C03_order_is_perm',
     'Pysmi.Symtab.inv_regDecl',
@@ -16,6 +16,11 @@ THEOREMS = [
     'Pysmi.Time.C03_revision_total',
     'Pysmi.Time.pin_genTime_source',
     'Pysmi.Time.pin_dummy',
+    'Pysmi.Records.C03_arity',
+    'Pysmi.Records.C03_record_class',
+    'Pysmi.Records.C03_record_fields',
+    'Pysmi.Records.C03_clause_values',
+    'Pysmi.Records.C03_clause_tags',
 ]
 TECHNIQUE = ('Lean 4 invariant proof that the emission order of the symbol pass is a duplicate-free permutation of the declared names; '
              'theorems about a model of genTime (CPython strptime regular expression with backtracking, calendar check, glibc %Y) for every date; '
@@ -27,8 +32,11 @@ LEVEL_TEXT = ('Proved in Lean for any number and mix of declarations: when the s
               'duplicated; the emission loop stores each record under its own name. Revision data: for every existing date and time of day a '
               'well-formed YYYYMMDDHHMMZ stamp is rendered as that date, the short form YYMMDDHHMMZ as 19YY (C03_revision_long/short), and every '
               'other text gives the dummy date or the rendering of an existing date (C03_revision_total); ASCII stamps (CPython\'s \\d also '
-              'accepts other Unicode digits: not modelled). Per-kind attribute copying (class, nodetype, status, '
-              'access, units) and JSON syntax (json.dumps) are not modelled: they are checked by the oracle on every generated '
+              'accepts other Unicode digits: not modelled). Per-kind attribute copying: decided by the kernel over tables regenerated from the Python AST of the parser actions and the '
+              'generator\'s handlers - for every declaration kind, class is the constant of the kind and status, access, units, description, '
+              'reference, name, OID value, object lists, revisions are computed from the name unpacked at the position where the parser put the '
+              'clause of that meaning, whose tag is handled by a handler returning its argument unchanged or through the text filter '
+              '(C03_record_class/fields/clause_values/clause_tags); Python\'s tuple unpacking and dict assignment themselves, nodetype and JSON syntax (json.dumps) are not modelled: they are checked by the oracle on every generated '
               'module, including texts with backslashes, apostrophes, non-ASCII and long words. Symbols named meta/imports collide with the '
               'document sections (recorded finding).')
 LEVEL_NOTE = c01.LEVEL_NOTE
@@ -43,7 +51,7 @@ CLASS = {'valueDecl': 'objectidentity', 'moduleIdentity': 'moduleidentity', 'obj
 def check_set(ctx, obs):
     res = ctx.res
     g = obs['gen']
-    inp = {'seed': obs['seed'], 'texts': obs['texts']}
+    inp = {'seed': obs['seed'], 'texts': obs['texts'], 'run_set': obs.get('run_set')}
     for mn, m in g.modules.items():
         doc = obs['json'].get(mn)
         if doc is None:
@@ -211,6 +219,8 @@ def replay(payload):
         except Exception as e:
             return {'fails': True, 'what': repr(e)}
         return {'fails': 'want' in payload['input'] and got != [payload['input']['want']], 'impl': got}
+    if payload['input'].get('run_set'):
+        return cg.replay_regenerated('C03', payload['input'], check_set, payload.get('key'))
 
     class C:
         pass
